@@ -304,6 +304,7 @@ pub async fn run_async(c: &Case, carve_partial: bool) -> Result<Info, String> {
 pub fn run_case(c: &Case, carve_partial: bool) -> Result<Info, String> {
     let (end, _alive) = simnet::run_case(c.duo.tokio_seed, run_async(c, carve_partial));
     match end {
+        CaseEnd::Done(Err(e)) => Err(format!("{e}\n  wire:{}", simnet::describe_last_wire())),
         CaseEnd::Done(r) => r,
         CaseEnd::Hang => Err(format!("HANG: the exchange never completed although every remaining send/recv is polled without limit (virtual-time watchdog); wire so far:{}", simnet::describe_last_wire())),
     }
@@ -311,6 +312,16 @@ pub fn run_case(c: &Case, carve_partial: bool) -> Result<Info, String> {
 
 fn carve(c: &Case, open: &[String], excluded: &mut Vec<String>) -> Case {
     let mut c = c.clone();
+    if open.iter().any(|o| o == "KF-receiver-accounting-on-take") && c.link.dir == 0 {
+        // a listener-side receiver starts at the acceptor's 200 credits: a smaller Auto(n) is a credit
+        // reduction with deliveries in flight
+        if let Credit::Auto(n) = c.link.credit {
+            if n < 200 {
+                c.link.credit = Credit::Auto(200);
+                excluded.push("KF-receiver-accounting-on-take".into());
+            }
+        }
+    }
     if open.iter().any(|o| o == "KF-engine-channel-deadlock") {
         let mut hit = false;
         // the receiving side's link->session channel keeps its generated capacity (1, 2, 8, 2048) so that
@@ -331,12 +342,11 @@ fn carve(c: &Case, open: &[String], excluded: &mut Vec<String>) -> Case {
                 hit = true;
             }
         }
-        if keep_rcv {
-            // a session that answers every frame with a flow of its own is the other half of the deadlock shape
-            for w in c.duo.incoming_window.iter_mut().chain(c.duo.outgoing_window.iter_mut()) {
-                if *w < 100 {
-                    *w = 100;
-                }
+        // a session that answers every frame with a flow of its own is the other half of the deadlock shape
+        // (and with deliveries of many frames no constant buffer size is enough): windows are not what C16 is about
+        for w in c.duo.incoming_window.iter_mut().chain(c.duo.outgoing_window.iter_mut()) {
+            if *w < 100 {
+                *w = 100;
             }
         }
         if c.link.link_buf < 32 {
